@@ -69,8 +69,8 @@ class PcapNg:
 
     def build(self, blocks, pre_idb=()):
         out = [self.shb()]
-        for b in pre_idb:  # unrelated blocks between SHB and IDB
-            out.append(getattr(self, b)())
+        for b in pre_idb:  # blocks between SHB and IDB: unrelated ones by name, or ('dsb', text)
+            out.append(self.dsb(b[1]) if isinstance(b, tuple) else getattr(self, b)())
         out.append(self.idb())
         for b in blocks:
             k = b[0]
